@@ -175,8 +175,13 @@ def rule_sel_pair(ctx):
     tset = {repr(core_of(t)) for t in types}
     cnt = 0
     ordn = {}
+    flat_uses = []
     for kind, node, t in uses:
-        t = TM.strip_bases(t)
+        # one construction may serve several kinds of field (a shared closure): judge each alternative value
+        alts = {repr(TM.strip_bases(l)): TM.strip_bases(l) for _, l in P.leaves(t)} or {repr(t): TM.strip_bases(t)}
+        for t_ in alts.values():
+            flat_uses.append((kind, node, t_))
+    for kind, node, t in flat_uses:
         c = core_of(t)
         if c[0] in ('none',) or 'Query.selection_parent_idx' not in TM.fields_in(c):
             continue   # names of schema types / fragments: defined elsewhere (DEF-CLOSURE)
